@@ -191,15 +191,17 @@ theorem nq_ackEof {N : Nat} {s : State} (h : NQ N s) (e : Eof) (now : Nat) (hb :
     inv_auto nq_frame 4 []
   · inv_auto nq_frame 4 []
 
-theorem nq_unackEofNoError {N : Nat} {s : State} (h : NQ N s) (e : Eof) (now : Nat) (hb : e.fileSize ≤ N) :
-    NQ N (unackEofNoError s e now) := by
-  have h1 : NQ N { checkFileSize s e.fileSize now with fileSize := some e.fileSize } := by
-    apply nq_setFileSize _ _ hb
-    inv_auto nq_frame 4 []
-  dsimp only at h1
-  simp only [unackEofNoError]
+theorem nq_unackComplete {N : Nat} {s : State} (h : NQ N s) (now : Nat) : NQ N (unackComplete s now) := by
+  simp only [unackComplete, unackCheckMissing]
   repeat' split
   all_goals inv_auto nq_frame 4 []
+
+theorem nq_unackEofNoError {N : Nat} {s : State} (h : NQ N s) (e : Eof) (now : Nat) (hb : e.fileSize ≤ N) :
+    NQ N (unackEofNoError s e now) := by
+  simp only [unackEofNoError]
+  apply nq_unackComplete
+  apply nq_setFileSize _ _ hb
+  inv_auto nq_frame 4 []
 
 theorem nq_unackEof {N : Nat} {s : State} (h : NQ N s) (e : Eof) (now : Nat) (hb : e.fileSize ≤ N) :
     NQ N (unackEof s e now) := by
